@@ -584,6 +584,67 @@ func main() {
 					}
 				}
 			}
+			// Two refused headers in a row on the same reader (the caller logs the first refusal and
+			// asks again; the frames carry no payload, so the stream stays in step): each refusal names
+			// a rule that the header it is about actually breaks.
+			for _, server := range []bool{true, false} {
+				for _, open := range []bool{false, true} {
+					for op1 := byte(0); op1 < 16; op1++ {
+						for _, m1 := range []bool{false, true} {
+							for op2 := byte(0); op2 < 16; op2++ {
+								for _, fin2 := range []bool{true, false} {
+									for _, m2 := range []bool{false, true} {
+										for _, rsv2 := range []byte{0, 4} {
+											st := refmodel.St{Server: server, Client: !server, Fragmented: open}
+											h1 := refmodel.Hdr{Fin: true, Op: op1, Masked: m1, Mask: [4]byte{1, 2, 3, 4}}
+											h2 := refmodel.Hdr{Fin: fin2, Rsv: rsv2, Op: op2, Masked: m2, Mask: [4]byte{5, 6, 7, 8}}
+											b1, b2 := refmodel.CheckRules(h1, st), refmodel.CheckRules(h2, st)
+											if len(b1) == 0 || len(b2) == 0 {
+												continue
+											}
+											server, open, h1, h2, b2 := server, open, h1, h2, b2
+											t.Do(func() string {
+												return fmt.Sprintf("server=%v message open=%v: refused header {%v} followed by refused header {%v}", server, open, h1, h2)
+											}, func() *explore.Fail {
+												var data []byte
+												if open {
+													data = refmodel.Frame{H: refmodel.Hdr{Op: 2, Masked: server, Mask: [4]byte{9, 9, 9, 9}}}.Wire()
+												}
+												data = append(append(data, refmodel.HdrEncode(h1)...), refmodel.HdrEncode(h2)...)
+												sst := ws.StateClientSide
+												if server {
+													sst = ws.StateServerSide
+												}
+												rd := &wsutil.Reader{Source: env.NewSrc(data), State: sst}
+												if open {
+													if _, err := rd.NextFrame(); err != nil {
+														return explore.Failf("harness-prefix", "%v", err)
+													}
+												}
+												if _, err := rd.NextFrame(); err == nil {
+													return explore.Failf("reader-accepts-invalid", "first header {%v}", h1)
+												}
+												_, err := rd.NextFrame()
+												if err == nil {
+													return explore.Failf("reader-accepts-invalid", "second header {%v}", h2)
+												}
+												rule, ok := errRule[err]
+												if !ok {
+													return explore.Failf("second-refusal-unknown-error", "%v", err)
+												}
+												if !b2[rule] {
+													return explore.Failf("second-refusal-names-unbroken-rule:"+rule, "error %q but the header breaks %v", err, keys(b2))
+												}
+												return nil
+											})
+										}
+									}
+								}
+							}
+						}
+					}
+				}
+			}
 			t.Outcome("as-CheckHeader")
 		})
 	})
